@@ -32,18 +32,23 @@ package rtsp
 //@   modifies
 // writers: out(w) is the ghost sequence of bytes accepted by w; wsout(c) counts the WebSocket messages sent on c
 //@ extern func (resp *fmtrtsp.Response) Write(w io.Writer) (err error)
+//@   ensures err != nil ==> ioErr(err)
 //@   requires resp != nil && w != nil
 //@   modifies out(w)
 //@   ensures len(out(w)) >= old(len(out(w)))
 //@ extern func (resp *fmtrtsp.Response) String() (s string)
 //@   modifies
+// an error of the connection itself (as opposed to a refusal the session decides on): what Write / Flush report
+//@ spec func ioErr(e error) bool = uninterpreted
 //@ extern func (c *buffered.Conn) Flush() (n int, err error)
 //@   requires c != nil
 //@   modifies ghostInt(c, "flushed"), ghostInt(c, "flushes")
+//@   ensures err != nil ==> ioErr(err)
 //@   ensures err == nil ==> ghostInt(c, "flushed") == len(out(c))
 //@   ensures ghostInt(c, "flushes") == old(ghostInt(c, "flushes")) + 1
 //@ extern func (c websocket.Conn) Write(p []byte) (n int, err error)
 //@   modifies ghostInt(c, "wsmessages"), out(c)
+//@   ensures err != nil ==> ioErr(err)
 //@   ensures ghostInt(c, "wsmessages") == old(ghostInt(c, "wsmessages")) + 1
 //@ extern func (l *xlog.Logger) Errorf(format string, args ...interface{}) ()
 //@   modifies
@@ -64,6 +69,7 @@ package rtsp
 //@   assert[call:Unlock] s.wsconn == nil && err == nil ==> ghostInt(s.conn, "flushed") == len(out(s.conn))
 //@   local err error
 //@   ensures !held(&s.lockW)
+//@   ensures rerr != nil ==> ioErr(rerr)
 //@   ensures s.wsconn != nil ==> ghostInt(s.wsconn, "wsmessages") == old(ghostInt(s.wsconn, "wsmessages")) + 1
 //@   ensures s.wsconn != nil ==> ghostInt(s.conn, "flushes") == old(ghostInt(s.conn, "flushes"))
 //@   ensures s.wsconn == nil ==> ghostInt(s.wsconn, "wsmessages") == old(ghostInt(s.wsconn, "wsmessages")) && ghostInt(s.conn, "flushes") <= old(ghostInt(s.conn, "flushes")) + 1 && ghostInt(s.conn, "flushes") >= old(ghostInt(s.conn, "flushes")) && (rerr == nil ==> ghostInt(s.conn, "flushes") == old(ghostInt(s.conn, "flushes")) + 1)
@@ -127,7 +133,7 @@ package rtsp
 //@ spec func permits(u *auth.User, path string, right auth.AccessRight) bool = uninterpreted
 // RFC 2326 A.1 state machine as the statement gives it
 //@ spec func legalRFC(status int, m string) bool = m == MethodOptions || m == MethodTeardown || (status == statusInit && (m == MethodDescribe || m == MethodAnnounce || m == MethodSetup)) || (status == statusReady && (m == MethodSetup || m == MethodPlay || m == MethodRecord)) || (status == statusPlaying && m == MethodPlay) || (status == statusRecording && m == MethodRecord)
-//@ spec func sessOK(s *Session) bool = s != nil && !held(&s.lockW) && (s.wsconn == nil ==> s.conn != nil) && statusInit <= s.status && s.status <= statusRecording && 0 <= ghostInt(s.conn, "flushes") && ghostInt(s.conn, "flushes") < 1<<40 && 0 <= ghostInt(s.wsconn, "wsmessages") && ghostInt(s.wsconn, "wsmessages") < 1<<40
+//@ spec func sessOK(s *Session) bool = s != nil && !held(&s.lockW) && s.conn != nil && statusInit <= s.status && s.status <= statusRecording && 0 <= ghostInt(s.conn, "flushes") && ghostInt(s.conn, "flushes") < 1<<40 && 0 <= ghostInt(s.wsconn, "wsmessages") && ghostInt(s.wsconn, "wsmessages") < 1<<40
 
 //@ extern func (u *auth.User) ValidatePermission(path string, right auth.AccessRight) (ok bool)
 //@   modifies
@@ -184,21 +190,58 @@ package rtsp
 //@   trusted
 //@   requires s != nil && (s.authMode == auth.NoneAuth || (s.user != nil && permits(s.user, s.path, auth.PushRight)))
 //@   modifies s.stream, s.logger, misc(s)
+//@ import "net"
+//@ import "github.com/cnotch/ipchub/network"
+//@ extern func xlog.F(key string, value interface{}) (f xlog.Field)
+//@   modifies
+//@ extern func xlog.Fields(fields ...xlog.Field) (o xlog.Option)
+//@   modifies
+//@ extern func (l *xlog.Logger) With(opts ...xlog.Option) (r *xlog.Logger)
+//@   modifies
+//@ extern func (s *media.Stream) StartConsume(consumer media.Consumer, packetType media.PacketType, extra string) (cid media.CID)
+//@   requires s != nil
+//@   modifies ghostAll("misc")
+//@ extern func (s *media.Stream) Multicastable() (m media.Multicastable)
+//@   requires s != nil
+//@   modifies
+//@ extern func (m media.Multicastable) AddMember(c io.Closer) ()
+//@   modifies ghostAll("misc")
+//@ extern func (c *buffered.Conn) RemoteAddr() (a net.Addr)
+//@   requires c != nil
+//@   modifies
+//@ extern func network.GetIP(addr net.Addr) (ip string)
+//@   modifies
+//@ func (c *udpConsumer) prepareUDP(destIP string, destPorts [rtpChannelCount]int) (err error)
+//@   trusted
+//@   requires c != nil
+//@   modifies c.udpConn, c.destAddr[:], ghostAll("misc")
 //@ func (s *Session) asTCPConsumer(stream *media.Stream, resp *Response) (err error)
-//@   trusted
-//@   requires s != nil && stream != nil && resp != nil && !held(&s.lockW) && (s.authMode == auth.NoneAuth || (s.user != nil && permits(s.user, s.path, auth.PullRight)))
-//@   modifies s.consumer, s.logger, misc(s), held(&s.lockW), out(s.conn), ghostInt(s.conn, "flushed"), ghostInt(s.conn, "flushes"), out(s.wsconn), ghostInt(s.wsconn, "wsmessages")
+//@   requires sessOK(s) && stream != nil && resp != nil && (s.authMode == auth.NoneAuth || (s.user != nil && permits(s.user, s.path, auth.PullRight)))
+//@   modifies s.consumer, s.logger, s.timeout, misc(s), ghostAll("misc"), held(&s.lockW), out(s.conn), ghostInt(s.conn, "flushed"), ghostInt(s.conn, "flushes"), out(s.wsconn), ghostInt(s.wsconn, "wsmessages")
 //@   ensures !held(&s.lockW) && (err == nil ==> sent(s) == old(sent(s)) + 1) && sent(s) <= old(sent(s)) + 1 && sent(s) >= old(sent(s))
+// a refusal (the role function changed the status code) attaches nothing and is not an error of the session: the only
+// error it can end with is the connection's own (the refusal could not be written), so the connection stays usable
+//@   ensures resp.StatusCode != old(resp.StatusCode) ==> s.consumer == old(s.consumer)
+//@   ensures resp.StatusCode != old(resp.StatusCode) ==> err == nil || ioErr(err)
+//@   ensures old(resp.StatusCode) == StatusOK && resp.StatusCode == StatusOK && err == nil ==> s.consumer != nil
 //@ func (s *Session) asUDPConsumer(stream *media.Stream, resp *Response) (err error)
-//@   trusted
-//@   requires s != nil && stream != nil && resp != nil && !held(&s.lockW) && (s.authMode == auth.NoneAuth || (s.user != nil && permits(s.user, s.path, auth.PullRight)))
-//@   modifies s.consumer, s.logger, misc(s), held(&s.lockW), out(s.conn), ghostInt(s.conn, "flushed"), ghostInt(s.conn, "flushes"), out(s.wsconn), ghostInt(s.wsconn, "wsmessages")
+//@   requires sessOK(s) && stream != nil && resp != nil && (s.authMode == auth.NoneAuth || (s.user != nil && permits(s.user, s.path, auth.PullRight))) && s.conn != nil
+//@   modifies resp.StatusCode, s.consumer, s.logger, s.timeout, misc(s), ghostAll("misc"), held(&s.lockW), out(s.conn), ghostInt(s.conn, "flushed"), ghostInt(s.conn, "flushes"), out(s.wsconn), ghostInt(s.wsconn, "wsmessages")
 //@   ensures !held(&s.lockW) && (err == nil ==> sent(s) == old(sent(s)) + 1) && sent(s) <= old(sent(s)) + 1 && sent(s) >= old(sent(s))
+// a refusal (the role function changed the status code) attaches nothing and is not an error of the session: the only
+// error it can end with is the connection's own (the refusal could not be written), so the connection stays usable
+//@   ensures resp.StatusCode != old(resp.StatusCode) ==> s.consumer == old(s.consumer)
+//@   ensures resp.StatusCode != old(resp.StatusCode) ==> err == nil || ioErr(err)
+//@   ensures old(resp.StatusCode) == StatusOK && resp.StatusCode == StatusOK && err == nil ==> s.consumer != nil
 //@ func (s *Session) asMulticastConsumer(stream *media.Stream, resp *Response) (err error)
-//@   trusted
-//@   requires s != nil && stream != nil && resp != nil && !held(&s.lockW) && (s.authMode == auth.NoneAuth || (s.user != nil && permits(s.user, s.path, auth.PullRight)))
-//@   modifies s.consumer, s.logger, misc(s), held(&s.lockW), out(s.conn), ghostInt(s.conn, "flushed"), ghostInt(s.conn, "flushes"), out(s.wsconn), ghostInt(s.wsconn, "wsmessages")
+//@   requires sessOK(s) && stream != nil && resp != nil && (s.authMode == auth.NoneAuth || (s.user != nil && permits(s.user, s.path, auth.PullRight)))
+//@   modifies resp.StatusCode, s.consumer, s.logger, s.timeout, misc(s), ghostAll("misc"), held(&s.lockW), out(s.conn), ghostInt(s.conn, "flushed"), ghostInt(s.conn, "flushes"), out(s.wsconn), ghostInt(s.wsconn, "wsmessages")
 //@   ensures !held(&s.lockW) && (err == nil ==> sent(s) == old(sent(s)) + 1) && sent(s) <= old(sent(s)) + 1 && sent(s) >= old(sent(s))
+// a refusal (the role function changed the status code) attaches nothing and is not an error of the session: the only
+// error it can end with is the connection's own (the refusal could not be written), so the connection stays usable
+//@   ensures resp.StatusCode != old(resp.StatusCode) ==> s.consumer == old(s.consumer)
+//@   ensures resp.StatusCode != old(resp.StatusCode) ==> err == nil || ioErr(err)
+//@   ensures old(resp.StatusCode) == StatusOK && resp.StatusCode == StatusOK && err == nil ==> s.consumer != nil
 
 // RECORD: only a session set up for recording over TCP, with push rights, starts publishing; otherwise 455 / 403, no change
 //@ func (s *Session) onRecord(resp *Response, req *Request) ()
@@ -218,6 +261,10 @@ package rtsp
 //@   ensures sent(s) <= old(sent(s)) + 1
 //@   ensures s.status == old(s.status) || (s.status == statusPlaying && s.mode == PlaySession && s.transport.Type != RTPUnknownTrans)
 //@   ensures old(s.status) != statusPlaying && (s.mode != PlaySession || s.transport.Type == RTPUnknownTrans) ==> s.status == old(s.status) && s.consumer == old(s.consumer)
+// a PLAY that is refused for whatever reason (455, 404, 403, 461, 500) changes nothing - the session does not become
+// Playing - and is not an error of the session (the connection stays usable)
+//@   ensures old(resp.StatusCode) == StatusOK && resp.StatusCode != StatusOK ==> s.status == old(s.status) && s.consumer == old(s.consumer)
+//@   ensures old(resp.StatusCode) == StatusOK && resp.StatusCode != StatusOK ==> err == nil || ioErr(err)
 
 //@ extern func (e error) Error() (s string)
 //@   modifies
